@@ -909,6 +909,27 @@ class Gen:
                    {"k": "assign", "x": it, "path": [], "e": bin_("add", v(it), lit("u64", 1))}])},
                {"k": "log", "e": v(st)}]
         out.append({"name": "case_paths", "body": block(ss6)})
+
+        # (7) loop-carried values rotated / swapped / used after their successor is computed (parallel-copy shapes)
+        ra, rb, rt, ri, rx, ry, rs = ("p%s%d" % (c, seed) for c in "abtixys")
+        ra, rb = "qa%d" % seed, "qb%d" % seed
+        n1, n2, n3 = r.randint(2, 12), r.randint(1, 4), r.randint(2, 6)
+        let = lambda x, e, mut=True, ty="u64": {"k": "let", "x": x, "mut": mut, "ty": T(ty), "e": e}
+        asg = lambda x, e: {"k": "assign", "x": x, "path": [], "e": e}
+        idc = lambda n: {"k": "call", "f": "id_u64", "args": [lit("u64", n)]}
+        ss7 = [let(ra, idc(r.randint(0, 3))), let(rb, idc(r.randint(1, 5))), let(ri, lit("u64", 0)),
+               {"k": "while", "c": bin_("lt", v(ri), lit("u64", n1)), "b": block([
+                   let(rt, bin_("add", v(ra), v(rb)), mut=False), asg(ra, v(rb)), asg(rb, v(rt)), asg(ri, bin_("add", v(ri), lit("u64", 1)))])},
+               tup([v(ra), v(rb), v(ri)]),
+               let(rx, idc(r.randint(0, 99))), let(ry, idc(r.randint(100, 199))), asg(ri, lit("u64", 0)),
+               {"k": "while", "c": bin_("lt", v(ri), lit("u64", n2)), "b": block([
+                   let(rt, v(rx), mut=False), asg(rx, v(ry)), asg(ry, v(rt)), asg(ri, bin_("add", v(ri), lit("u64", 1)))])},
+               tup([v(rx), v(ry)]),
+               let(rs, lit("u64", 0)), asg(ri, idc(0)),
+               {"k": "while", "c": bin_("lt", v(ri), lit("u64", n3)), "b": block([
+                   let(rt, bin_("add", v(ri), lit("u64", 1)), mut=False), asg(rs, bin_("add", v(rs), bin_("mul", v(ri), v(rt)))), asg(ri, v(rt))])},
+               tup([v(ri), v(rs)])]
+        out.append({"name": "case_rotate", "body": block(ss7)})
         return out
 
     def main_fn(self):
